@@ -84,6 +84,14 @@ mod verif_uri_w {
         assert!(a.path_bytes() == a.path().as_bytes() && a.module().as_bytes() == &t1[..t1.len() - a.path().len()], "module() / path_bytes() agree");
         assert!(a == a && h(&a) == h(&a.clone()) && !a.is_parent_of(&a), "reflexive; parent-of irreflexive");
         assert!(a.relative_to(&a) == Some(""), "relative_to(self) is empty");
+        // the same URI with only the case of the scheme changed (authority left alone): equal, so it hashes equally
+        for up in [true, false] {
+            let mut tc = t1.clone();
+            for c in tc[..5].iter_mut() { *c = if up { c.to_ascii_uppercase() } else { c.to_ascii_lowercase() } }
+            let c = Rsync::from_slice(&tc).expect("the case of the scheme does not matter for acceptance");
+            assert!(a == c && c == a, "scheme compared case-insensitively");
+            assert!(h(&a) == h(&c), "equal URIs hash equally (scheme case changed)");
+        }
         // a related second URI: shares a prefix with the first, case of scheme/authority possibly flipped
         let cut = (k as usize) % (t1.len() + 1);
         let mut t2v = t1[..cut].to_vec();
